@@ -107,6 +107,23 @@ CHECKS = {
          'keyword invocation; z3 proves equal delivered arguments and equal results.',
     note='Wire side is JsonDocument in the symbolic part; XmlDocument/Soap11 need lxml and are not compared. Argument values: '
          'integers -3..3, strings <= 2 chars, booleans.'),
+ 'C11': dict(
+    cat='model_checking', ref='DESIGN.md section 4 (C11)',
+    text='The requested method name is a symbolic string (every string of the relevant lengths over the letters of the registered '
+         'names; for XML also a symbolic namespace) fed to the real decompose_incoming_envelope / generate_method_contexts / '
+         'get_call_handles of JsonDocument, XmlDocument, Soap11, MessagePackRpc and HttpRpc-over-WSGI; z3 proves that the handles '
+         'are exactly those registered under that exact qualified name and ResourceNotFoundError otherwise.',
+    note='One application with adversarially similar names (both service orders). Rejection of colliding names at construction and '
+         'HttpPattern matching quantify over programs and are not claimed.'),
+ 'C17': dict(
+    cat='other', ref='DESIGN.md section 4 (C17)',
+    text='Option flow only: with all twelve parser options symbolic, z3 proves that XmlDocument/Soap11/Soap12.create_in_document '
+         'build one parser per request with exactly the constructor values (no cross-wiring) and hand that parser the request '
+         'bytes; the constructor defaults read from the live signature equal the safe set. What libxml2 does with the options '
+         '(entity expansion, DTD loading, time/memory bounds) is C code and is NOT shown; one concrete external-entity canary '
+         'runs on the real library during witness replay.',
+    note='Trusted base: lxml/libxml2 honouring resolve_entities=False, load_dtd=False, no_network=True, huge_tree=False. The lxml '
+         'entry points are replaced by a recording stub in the symbolic part.'),
 }
 
 NOT_APPLICABLE = {
